@@ -344,6 +344,23 @@ func (c *Ctx) Neq(a, b *Term) *Term { return c.Not(c.Eq(a, b)) }
 
 // ---- Ref datatype -------------------------------------------------------
 
+// IsRoot / RootID: datatype tester and selector
+func (c *Ctx) IsRoot(r *Term) *Term {
+	if r.Op == "root" {
+		return c.True()
+	}
+	if r.Op == "nilref" || r.Op == "sub" || r.Op == "idx" {
+		return c.False()
+	}
+	return c.mk(&Term{Op: "is-root", Args: []*Term{r}, S: BoolS})
+}
+func (c *Ctx) RootID(r *Term) *Term {
+	if r.Op == "root" {
+		return r.Args[0]
+	}
+	return c.mk(&Term{Op: "rootid", Args: []*Term{r}, S: IntS})
+}
+
 func (c *Ctx) NilRef() *Term { return c.mk(&Term{Op: "nilref", S: RefS}) }
 func (c *Ctx) Root(id *Term) *Term {
 	return c.mk(&Term{Op: "root", Args: []*Term{id}, S: RefS})
@@ -962,6 +979,10 @@ func (c *Ctx) print(sb *strings.Builder, t *Term, names map[*Term]string, depth 
 		sb.WriteByte(')')
 	case "zero_extend", "sign_extend":
 		fmt.Fprintf(sb, "((_ %s %d) ", t.Op, t.I)
+		c.print(sb, t.Args[0], names, depth+1)
+		sb.WriteByte(')')
+	case "is-root":
+		sb.WriteString("((_ is root) ")
 		c.print(sb, t.Args[0], names, depth+1)
 		sb.WriteByte(')')
 	case "int2bv":
